@@ -189,6 +189,29 @@ func runC09(c *core.Case) {
 			}
 		}
 	}
+	// (b') the same through the single-zoom (radix tree) overlap check: the point's voxels at two zooms h == v, inside
+	// the altitude window of that check
+	if math.Abs(p.alt) < 1<<24 {
+		z1, z2 := r.Range(1, 35), r.Range(20, 35)
+		s1, ok1 := lookup(z1, z1)
+		s2, ok2 := lookup(z2, z2)
+		if !ok1 || !ok2 {
+			return
+		}
+		a1, _ := ref.ParseExt(s1)
+		a2, _ := ref.ParseExt(s2)
+		if inWindow(a1) && inWindow(a2) {
+			for _, pr := range [][2]ref.ID{{a1, a2}, {a2, a1}} {
+				g, e := detector.CheckSpatialIdsOverlap(pr[0].Spatial(), pr[1].Spatial())
+				c.Call()
+				if e != nil || !g {
+					c.Fail("point-voxels-overlap-spatial", nil, "voxels %s and %s both contain the point (%v,%v,%v) but CheckSpatialIdsOverlap = (%v,%v)", pr[0].Spatial(), pr[1].Spatial(), p.lon, p.lat, p.alt, g, e)
+					return
+				}
+			}
+			c.Tag("single-zoom-overlap-of-point-voxels")
+		}
+	}
 	// (c),(d) zoom in and back, merge of the complete set of descendants
 	var id ref.ID
 	if r.Bool() {
